@@ -400,7 +400,9 @@ def c12(run):
     run.extra["s2i"] = {"token_sequences": summary["sequences"], "piece_strings": s2["strings"], "panics": summary["panics"] + s2["panics"]}
     # "evaluation of formulas whose fixed points converge": well-formed formulas with monotone (hence convergent) fixed
     # points, nested ones included, are evaluated in-process (twice) and through the binary; a panic is a violation here
-    for binders, ck in ((2, 2 if not t else 1), (3, 8 if not t else 2)):
+    # (Binders = 1: quantified one-step wrappers, among them counting comparisons against constants beyond every list length,
+    # rendered as 10^6, 2^32, 2^63 - 1, 2^63, 2^64 - 1)
+    for binders, ck in ((1, 5 if not t else 1), (2, 2 if not t else 1), (3, 8 if not t else 2)):
         pn, cn = mc_nest(run, binders, ck)
         replay_lang(run, pn, "nested_%d_binders" % binders, {"C12"})
     sconv = checks_lang_trace.record_formulas(run, 6000 if t else 900, {"C12"}, label="convergent")
